@@ -1,6 +1,15 @@
 HOOK_COMMITS = ["02bc05e"]
 NOT_APPLICABLE = {}
 TEXT = {
+ "C05": {
+  "text": "Kernel-checked theorems over the Go-faithful model of SelectProducers (any sorting algorithm, any "
+          "rand.Perm): exactly NodeCount slots, members only, input-order irrelevance for distinct names, no pillar "
+          "twice when enough pillars; model tied by a differential stream through the real election code.",
+  "design_ref": "§3 C05",
+  "note": "rand.Perm / sort.Sort / crypto are parameters with explicit hypotheses.",
+  "technique": "Lean 4 proof (induction, permutation reasoning) + regenerated facts (constants, verifier check order from "
+               "the AST) + differential correspondence + model-free monitors",
+ },
  "C12": {
   "text": "Kernel-checked theorems over the Go-faithful model of getTargetByDifficulty / greaterDifficulty / "
           "DifficultyToPlasma / FussedAmountToPlasma: threshold = 2^64 - 2^64/d for every 2 <= d < 2^64, comparison = "
